@@ -25,6 +25,9 @@ RENAMINGS = [
     # names of the form $f<k>, the printed form of generated slots, ahead of the thread's fresh counter: the library must step its
     # counter over them (Slot::named) so that no generated slot ever coincides with one of them
     ('fnames', lambda x: ['f', 3 * x + 2]),
+    # zero-padded decimal numerals as TEXTUAL names: "1", "01", "001", "2", "02", ... are pairwise different names and must be pairwise
+    # different slots (only canonical numerals denote numeric slots)
+    ('padded', lambda x: (x // 3 + 1) if x % 3 == 0 else ['s', ['t'] + [ord(ch) for ch in ('0' * (x % 3) + str(x // 3 + 1))]]),
 ]
 
 
@@ -39,7 +42,7 @@ class C11(EgSpec):
     trusted_base = EG_TB + ['EGraph/Model.v as the common oracle for the original and the renamed run']
     assumptions = ['equivariance of the e-graph algorithm is not proved (its tie-breaks use the slot order on purpose); proved is equivariance of the specified congruence Deriv',
                    'analysis data and extraction cost under renaming are exercised by the C14 / C06 checks, not here']
-    rule = ('each random/motif history is run together with one renamed copy (all slot names of all inputs replaced through an injective map: shift, order-reversing, numeric->textual names, scatter, names of the form $f<k>); '
+    rule = ('each random/motif history is run together with one renamed copy (all slot names of all inputs replaced through an injective map: shift, order-reversing, numeric->textual names, scatter, names of the form $f<k>, zero-padded numerals as textual names); '
             'compared: every equality query, live classes, per-term slot set (renamed) and symmetry count. non-trivial = history with >= 1 union and >= 2 distinct slot names')
     streams = [
         {'name': 'default', 'component': 'eg', 'config': 'default', 'quick': 300, 'thorough': 8000},
@@ -62,7 +65,7 @@ class C11(EgSpec):
 
     def model_input(self, stream, case, impl_obs):
         pc = core.sx_parse(case)
-        if isinstance(pc[4], str) and pc[4].startswith('ren4x'):
+        if isinstance(pc[4], str) and (pc[4].startswith('ren4x') or pc[4].startswith('ren5x')):
             return None     # the model's slot table does not model Slot::named's counter bump for $f<k> input names; judged on the implementation only
         return core.sx_show(['egm'] + pc[1:])
 
